@@ -39,6 +39,9 @@ pub struct Profile {
     pub big_w: u32,
     /// this instance is the large-queue variant
     pub big: bool,
+    /// percentage of iter_mut operations that write through the yielded references only after the
+    /// iterator has been dropped (known finding F7)
+    pub late_writes: u32,
 }
 
 const BOTH: &[Kind] = &[Kind::PQ, Kind::DPQ];
@@ -121,6 +124,7 @@ pub fn profile(prop: u8, thorough: bool) -> Profile {
         abstract_only: false,
         big_w: 0,
         big: false,
+        late_writes: 0,
     };
     if thorough {
         p.size_w = [1, 1, 1, 1, 4, 4, 2, 1];
@@ -129,11 +133,13 @@ pub fn profile(prop: u8, thorough: bool) -> Profile {
         1 => {
             p.kinds = PQ_ONLY;
             p.big_w = 15;
+            p.late_writes = 4;
             p.hashers = ALL_HASHERS;
         }
         2 => {
             p.kinds = DPQ_ONLY;
             p.big_w = 15;
+            p.late_writes = 4;
             p.hashers = ALL_HASHERS;
         }
         3 => {
@@ -168,6 +174,7 @@ pub fn profile(prop: u8, thorough: bool) -> Profile {
         }
         8 => {
             p.big_w = 15;
+            p.late_writes = 10;
             p.ops = with(p.ops, &[("retain", 10), ("retain_mut", 12), ("iter_mut", 12), ("pop_if", 14), ("adaptor_iter_mut", 6), ("clear", 0), ("drain", 0)]);
             p.max_ops = if thorough { 80 } else { 30 };
         }
@@ -444,9 +451,12 @@ pub fn op_strategy(p: &Profile, kind: Kind, u: u32, dom: u8) -> BoxedStrategy<Op
             "retain_mut" => (mask(), rewrite(dom), mask(), proptest::option::of(any::<u32>()))
                 .prop_map(|(mask, rw, rwmask, tagw)| Op::RetainMut { mask, rw, rwmask, tagw })
                 .boxed(),
-            "iter_mut" => (program(kind, true, plen), rewrite(dom), mask(), proptest::option::of(any::<u32>()), endhow.clone(), any::<bool>())
-                .prop_map(|(prog, rw, rwmask, tagw, end, via_into)| Op::IterMut { prog, rw, rwmask, tagw, end, via_into })
-                .boxed(),
+            "iter_mut" => {
+                let late_w = p.late_writes;
+                (program(kind, true, plen), rewrite(dom), mask(), proptest::option::of(any::<u32>()), endhow.clone(), any::<bool>(), 0u32..100)
+                    .prop_map(move |(prog, rw, rwmask, tagw, end, via_into, l)| Op::IterMut { prog, rw, rwmask, tagw, end, via_into, late: l < late_w })
+                    .boxed()
+            }
             "iter" => program(kind, true, plen).prop_map(|prog| Op::IterProg { which: ItKind::Iter, prog, end: EndHow::Drop }).boxed(),
             "ref_into_iter" => program(kind, true, plen).prop_map(|prog| Op::IterProg { which: ItKind::RefIntoIter, prog, end: EndHow::Drop }).boxed(),
             "into_iter" => program(kind, true, plen).prop_map(|prog| Op::IterProg { which: ItKind::IntoIter, prog, end: EndHow::Drop }).boxed(),
@@ -473,7 +483,7 @@ pub fn op_strategy(p: &Profile, kind: Kind, u: u32, dom: u8) -> BoxedStrategy<Op
             "from_vec" => pairs(u, dom, 24).prop_map(|extra| Op::RebuildFromVec { extra }).boxed(),
             "from_iter" => (pairs(u, dom, 24), hint(p.huge_hints)).prop_map(|(extra, hint)| Op::RebuildFromIter { extra, hint }).boxed(),
             "convert" => Just(Op::ConvertRound).boxed(),
-            "serde" => (prop_oneof![Just(Carrier::JsonText), Just(Carrier::JsonValue), Just(Carrier::SeqDe), Just(Carrier::InPlace)], any::<bool>())
+            "serde" => (prop_oneof![2 => Just(Carrier::JsonText), 2 => Just(Carrier::JsonValue), 2 => Just(Carrier::SeqDe), 2 => Just(Carrier::InPlace), 3 => (-5i8..9).prop_map(Carrier::SeqHint)], any::<bool>())
                 .prop_map(|(carrier, cross)| Op::Serde { carrier, cross })
                 .boxed(),
             "clone" => prop_oneof![2 => Just(Op::CloneReplace), 2 => Just(Op::Snapshot), 3 => Just(Op::RestoreFrom)].boxed(),
@@ -481,7 +491,7 @@ pub fn op_strategy(p: &Profile, kind: Kind, u: u32, dom: u8) -> BoxedStrategy<Op
             "reserve" => {
                 let kinds = prop_oneof![Just(ResKind::Reserve), Just(ResKind::ReserveExact), Just(ResKind::TryReserve), Just(ResKind::TryReserveExact)];
                 let try_kinds = prop_oneof![Just(ResKind::TryReserve), Just(ResKind::TryReserveExact)];
-                let small = prop_oneof![3 => Just(0u16), 6 => 1u16..65, 2 => 128u16..4097].prop_map(Amount::Small);
+                let small = prop_oneof![6 => Just(0u16), 12 => 1u16..65, 4 => 128u16..4097, 1 => 8193u16..20000].prop_map(Amount::Small);
                 let mut alts: Vec<(u32, BoxedStrategy<Op>)> = vec![(8, (kinds.clone(), small).prop_map(|(how, amt)| Op::Reserve { how, amt }).boxed())];
                 if p.try_huge {
                     alts.push((3, (try_kinds, (0u8..6).prop_map(Amount::Huge)).prop_map(|(how, amt)| Op::Reserve { how, amt }).boxed()));
@@ -510,7 +520,7 @@ pub fn op_strategy(p: &Profile, kind: Kind, u: u32, dom: u8) -> BoxedStrategy<Op
                     vec((0..u.min(6).max(1), any::<u32>(), prio_val(dom)), 0..40),
                     vec((0..u.max(1), any::<u32>(), prio_val(dom)), 0..40),
                 ],
-                prop_oneof![Just(Carrier::JsonText), Just(Carrier::JsonValue), Just(Carrier::SeqDe), Just(Carrier::InPlace)],
+                prop_oneof![2 => Just(Carrier::JsonText), 2 => Just(Carrier::JsonValue), 2 => Just(Carrier::SeqDe), 2 => Just(Carrier::InPlace), 3 => (-5i8..9).prop_map(Carrier::SeqHint)],
                 any::<bool>(),
             )
                 .prop_map(|(pairs, carrier, cross)| Op::DeserSeq { pairs, carrier, cross })
@@ -583,7 +593,7 @@ pub fn ctor_strategy(p: &Profile, u: u32, dom: u8) -> BoxedStrategy<Ctor> {
     let sizes: Vec<(u32, BoxedStrategy<(usize, usize)>)> = classes.into_iter().map(|(w, lo, hi)| (w, Just((lo, hi)).boxed())).collect();
     let how = prop_oneof![
         4 => Just(CtorKind::New),
-        1 => (0u16..300).prop_map(CtorKind::WithCapacity),
+        1 => prop_oneof![20 => 0u16..300, 1 => 8193u16..20000].prop_map(CtorKind::WithCapacity),
         1 => Just(CtorKind::WithHasher),
         1 => (0u16..300).prop_map(CtorKind::WithCapacityAndHasher),
         1 => Just(CtorKind::WithDefaultHasher),
